@@ -81,7 +81,8 @@ def op_eqs(o):
         return [f"q' = -kq*q + gq*{o['reads']}"]
     if o['lib'] == 'rd2':
         return [f"q' = -kq*q + gq*{o['reads']} + z_in"]
-    return list(LIB[o['lib']]['eqs'])
+    eqs = list(LIB[o['lib']]['eqs'])
+    return eqs[::-1] if o.get('eq_rev') else eqs      # the same equations written in the opposite order
 
 
 def edge_value(attrs, ets, y, src):
